@@ -255,6 +255,33 @@ static void build_symm(Problem &p, long n, const std::string &fam, int var, Rng 
     for (long i = 0; i < n2; ++i)
       for (long j = 0; j < n2; ++j)
         a(perm[n1 + i], perm[n1 + j]) = (i == j) ? d1(n1 - 1) + 1.0 + 0.1 * double(i) : b2(i, j);
+  } else if (fam == "intruder") {
+    // diagonal 1,2,3,.. with weak decaying coupling, plus a strongly coupled 2x2 block far down the
+    // diagonal whose lower eigenvalue lies BELOW the first diagonal entries and which is reached
+    // from the unit-vector start space only through a weak link: the lowest root enters the Ritz
+    // spectrum late and pushes already converged roots one position up (non-monotone convergence)
+    a = pick3(0.01, 0.03, 0.002, var % 3) * coupling(n, r, true);
+    for (long i = 0; i < n; ++i) a(i, i) = double(i + 1);
+    long lo = std::min<long>(n - 2, std::max<long>(n / 2, 8));
+    long pos = lo + (n - 2 > lo ? r.below(n - 1 - lo) : 0);  // block at (pos, pos+1), behind the start space
+    if (pos < 0) pos = 0;
+    double target = pick3(0.4, -1.5, 0.85, (var / 3) % 3);     // lower eigenvalue of the block
+    double mid = double(pos) + 1.5;
+    double b = std::sqrt((mid - target) * (mid - target) - 0.25);
+    a(pos, pos + 1) = b;
+    a(pos + 1, pos) = b;
+    double link = pick3(1e-2, 1e-1, 1e-3, (var / 9) % 3) * (1.0 + r.u());
+    long nlinks = 1 + (var / 27) % 2;                          // linked to one or two leading rows
+    for (long k = 0; k < nlinks; ++k) {
+      long j = r.below(std::min<long>(n / 4 > 0 ? n / 4 : 1, 6));
+      if (j == pos || j == pos + 1) continue;
+      a(j, pos) = link;
+      a(pos, j) = link;
+      if ((var / 54) % 2 == 1) {
+        a(j, pos + 1) = -link;
+        a(pos + 1, j) = -link;
+      }
+    }
   } else if (fam == "exactdeg") {
     // every eigenvalue exactly twice: two interleaved copies of one matrix
     long h = n / 2;
